@@ -136,14 +136,44 @@ func init() {
 				m.unsupported("strconv.Append(U)int of symbolic value in base %d", base)
 			}
 			dst := args[0].(Slice)
-			out := make([]Value, 0, len(dst.V)+s.Len())
-			out = append(out, dst.V...)
-			for _, b := range m.strBytes(s) {
-				out = append(out, b)
+			bs := m.strBytes(s)
+			add := make([]Value, len(bs))
+			for i, b := range bs {
+				add[i] = b
 			}
-			return Slice{V: out}
+			return m.appendBytes(dst, add)
 		}
 	}
 	register("strconv.AppendInt", appendFmt(true))
 	register("strconv.AppendUint", appendFmt(false))
+}
+
+// appendBytes is append(dst, add...) for byte slices with Go's aliasing
+// semantics: spare capacity of dst is written in place (callers such as
+// strconv.AppendInt(buf[i:i], …) rely on the write reaching buf's array).
+func (m *Machine) appendBytes(dst Slice, add []Value) Slice {
+	n := len(dst.V)
+	if len(add) == 0 {
+		return dst
+	}
+	if dst.V != nil && n+len(add) <= cap(dst.V) {
+		out := dst.V[:n+len(add)]
+		for i, e := range add {
+			m.storeAt(&out[n+i], e)
+		}
+		return Slice{V: out}
+	}
+	nc := 2 * cap(dst.V)
+	if nc < n+len(add) {
+		nc = n + len(add)
+	}
+	out := make([]Value, n+len(add), nc)
+	copy(out, dst.V)
+	copy(out[n:], add)
+	z := m.F.Const(8, 0)
+	full := out[:nc]
+	for i := n + len(add); i < nc; i++ {
+		full[i] = z
+	}
+	return Slice{V: out}
 }
